@@ -502,17 +502,20 @@ fn check_type_relation<T: TypeLookup>(
 
             // All fields in pattern must exist in self with compatible types
             fields2.iter().all(|(fname2, ftype2)| {
-                fields1.iter().any(|(fname1, ftype1)| {
-                    fname1 == fname2
-                        && check_type_relation(
-                            *ftype1,
-                            *ftype2,
-                            lookup,
-                            mode,
-                            assumptions,
-                            type_stack,
-                        )
-                })
+                // For overlap (ANY) a field that self does not list is unconstrained: a tuple
+                // can carry the fields of both partials.
+                (mode == UnionMode::Any && !fields1.iter().any(|(fname1, _)| fname1 == fname2))
+                    || fields1.iter().any(|(fname1, ftype1)| {
+                        fname1 == fname2
+                            && check_type_relation(
+                                *ftype1,
+                                *ftype2,
+                                lookup,
+                                mode,
+                                assumptions,
+                                type_stack,
+                            )
+                    })
             })
         }
 
